@@ -12,7 +12,7 @@ use std::rc::Rc;
 pub const DEF: PropDef = PropDef {
     id: "C16",
     level: "exploration",
-    rule: "programs built directly as AST values (public fields): the whole canonical corpus of the reference grammar (every statement kind with every slot filled from 14 expression shapes, operator chains, lists, calls, subscripts), every block-nesting shape up to 5 (thorough 6) nodes, plus trees the parser never produces (empty else / then / loop / function blocks, functions with 0..3 parameters, poetic literals with word / suffix / dot elements in rock and assignment); for each program every failing position k = 0..n-1 of the leaf callbacks plus 'never'; a recording visitor that overrides only the eight leaf callbacks runs through ExprVisitorRunner, its Output is the free monoid (event list); expected = reference traversal of the tree in field order; checks: returned list = side-effect log = expected; failing at k returns Err(k) unchanged with log = expected[..=k]; non-trivial = programs with at least 2 leaf events; distinct = distinct (program, k)",
+    rule: "programs built directly as AST values (public fields): the whole canonical corpus of the reference grammar (every statement kind with every slot filled from 14 expression shapes, operator chains, lists, calls, subscripts), every block-nesting shape up to 5 (thorough 7) nodes, plus trees the parser never produces (empty else / then / loop / function blocks, functions with 0..3 parameters, poetic literals with word / suffix / dot elements in rock and assignment); for each program every failing position k = 0..n-1 of the leaf callbacks plus 'never'; a recording visitor that overrides only the eight leaf callbacks runs through ExprVisitorRunner, its Output is the free monoid (event list); expected = reference traversal of the tree in field order; checks: returned list = side-effect log = expected; failing at k returns Err(k) unchanged with log = expected[..=k]; non-trivial = programs with at least 2 leaf events; distinct = distinct (program, k)",
     assumptions: &["the reference traversal (children in field order) is written against the RAst mirror of the public AST", "mutation operator and rounding direction callbacks belong to VisitProgram, not to the expression visitor, and are not observable through the runner"],
     build,
     exhaustive: true,
@@ -293,7 +293,7 @@ fn build(tier: Tier) -> Box<dyn Check> {
         progs.push(s);
     }
     let mut memo = std::collections::HashMap::new();
-    for n in 1..=tier.pick(5, 6) {
+    for n in 1..=tier.pick(5, 7) {
         for sh in c02::shape_block(n, 3, &mut memo).iter() {
             let mut c = 0;
             if let Some((_, s)) = crate::refmodel::grammar::lines(&c02::shape_to_tsb(&sh, &mut c)) {
